@@ -7,33 +7,36 @@ TITLE = "Refetch references resolve to the refetch query for that field"
 TRANSLATORS = [t2_gql_tokens.translate]
 LEAN_MODULES = ["IsoVerif.Props.C25"]
 _P = "IsoVerif.Props.C25."
-THEOREMS = [_P + t for t in ("C25_witness_reorder", "C25_sort_commutes", "C25_partial", "C25_witness_keys_merge",
-                                "C25_witness_not_order_preserving", "C25_witness_merge_not_order_preserving")]
+THEOREMS = [_P + t for t in ("C25_resolves", "C25_fixed_reorder", "C25_fixed_keys_merge", "C25_before_repair_partial",
+                                "C25_sort_commutes", "C25_witnesses_not_order_preserving")]
 HARNESS = ("hx_ops", {"HX_ENGINE": "c25"})
 DRIVER = "drv_ops"
-CASES = {"quick": 300, "thorough": 6000}
-TECHNIQUE = ("Lean 4: the refetch bookkeeping as sorted key lists (child numbering by untransformed key order, parent's usedRefetchQueries "
-             "by transformed-and-sorted order, composition at run time) with the theorem that composing the indices is right for every "
-             "order-preserving argument substitution and the F18 witness that it is wrong otherwise; on the real code an oracle follows the "
-             "indices in the generated entrypoint.ts / resolver_reader.ts / __refetch__N.ts (evaluated under node) from every entrypoint through "
-             "every chain of eagerly read client fields and compares the selected query with the selection the entrypoint's own query makes at "
-             "that position; the same walk is done by js/ops_eval.mjs and, through C10, by the real read.ts")
-LEVEL_TEXT = ("Kernel-checked for all key lists and substitutions: sorting commutes with an order-preserving substitution (C25_sort_commutes), hence "
-              "the query the runtime ends up with for the child's selection σ is the one generated for the transformed key f σ (C25_partial); the "
-              "two-key substitution that swaps the order is a counterexample to the unrestricted statement (C25_witness_reorder = F18). On every "
-              "run the oracle walks the implementation's artifacts for all generated projects (client fields with __refetch / exposed mutation "
-              "fields / client pointers / @loadable reused at several positions and by several entrypoints) and the demos: index in range, "
-              "operation named <entrypoint type>__<field>, re-fetched selection = the entrypoint's selection at the selection's position (for a "
-              "pointer: covers the pointer's reads; for a loadable field: its own entrypoint).")
+CASES = {"quick": 200, "thorough": 6000}
+TECHNIQUE = ("Lean 4: the refetch bookkeeping as sorted key lists (the child's numbering by its own key order, the parent's usedRefetchQueries, "
+             "the composition at run time) with the theorem that composing the indices selects the query of the transformed key for EVERY "
+             "argument substitution (after the repair 34522e4), and, for the bookkeeping before the repair, the F18 witnesses and the partial "
+             "theorem under order preservation; on the real code an oracle follows the indices in the generated entrypoint.ts / "
+             "resolver_reader.ts / __refetch__N.ts (evaluated under node) from every entrypoint through every chain of eagerly read client "
+             "fields and compares the selected query with the selection the entrypoint's own query makes at that position; the same walk is "
+             "done by js/ops_eval.mjs and, through C10, by the real read.ts")
+LEVEL_TEXT = ("Kernel-checked for all key lists and ALL substitutions (order-reversing and key-merging ones included): the query the runtime ends "
+              "up with for the child's selection σ is the one generated for the transformed key f σ (C25_resolves). For the bookkeeping before "
+              "34522e4: the two counterexamples (order swapped = F18; two keys merged) and the theorem that it was right exactly under order "
+              "preservation (C25_fixed_reorder, C25_fixed_keys_merge, C25_before_repair_partial, C25_sort_commutes). On every run the oracle walks "
+              "the implementation's artifacts for all generated projects (client fields with __refetch / exposed mutation fields / client "
+              "pointers / @loadable reused at several positions and by several entrypoints) and the demos: index in range, operation named "
+              "<entrypoint type>__<field>, re-fetched selection = the entrypoint's selection at the selection's position (for a pointer: covers "
+              "the pointer's reads; for a loadable field: its own entrypoint).")
 LEVEL_NOTE = ("Trusted: Lean kernel; " + _ops.TRUST_RUNTIME + "; the abstract bookkeeping model (keys as ranks) is hand-written from "
-              "reader_ast.rs (find_imperatively_fetchable_query_index, get_nested_refetch_query_text, refetched_paths_for_client_scalar_selectable) "
-              "and create_merged_selection_set.rs (incorporate_results_of_iterating_into_child); it is tied to the code through the F18 witness "
-              "replay and the oracle on the artifacts, not through a differential run of the key lists (no hook dumps RefetchedPathsMap).")
-PARTIAL = ["C25_partial needs OrderPreserving: the substitution along the chain keeps the order of the child's keys (e.g. every argument passed "
-           "down is a variable, or the child has one refetchable selection per parent path); F18 is the open finding outside it",
-           "positions below an object argument with a variable / a defaulted variable are not in the entrypoint's query at all (consequences of "
-           "the C10 findings): open findings position-not-fetched:*",
-           "the order of the keys (interning order of StringKey) is an input of the abstract model"]
+              "reader_ast.rs (find_imperatively_fetchable_query_index, get_nested_refetch_query_text, user_written_variant_ast_node) and "
+              "create_merged_selection_set.rs (incorporate_results_of_iterating_into_child); it is tied to the code through the witness replays "
+              "(which failed before the repair and pass now) and the oracle on the artifacts, not through a differential run of the key lists "
+              "(no hook dumps RefetchedPathsMap).")
+PARTIAL = ["the abstract model assumes that the set of paths the child's reader numbers equals the set the parent transforms (both come from the "
+           "child's selection set: traversal_state.refetch_paths vs refetched_paths_with_path) and that every transformed path is a key of the "
+           "parent's map; the oracle checks the composition on the artifacts",
+           "client pointers with variables are outside the generator's envelope (the compiler panics on them)",
+           "the order of the keys is an input of the abstract model"]
 ASSUMPTIONS = ["a refetch query's wrapping fields form a chain of single linked fields / inline fragments above the re-fetched selection",
                "the selection of a refetchable type contains `id`, so the chain ends at the re-fetched selection"]
 
